@@ -386,10 +386,10 @@ func (e *Exec) symMath(name string, args []Value) Value {
 }
 
 func (e *Exec) syncEvent(kind string, obj *Value) {
-	if !e.Cfg.LogAccess {
+	if !e.logging {
 		return
 	}
-	e.accessLog = append(e.accessLog, Access{Loc: obj, Go: e.curGo, Seq: len(e.accessLog), Atomic: true, Sync: kind})
+	e.accessLog = append(e.accessLog, Access{Seg: e.logSeg, Loc: obj, Go: e.curGo, Seq: len(e.accessLog), Sync: kind})
 }
 
 // ---------------- zlib stub ----------------
